@@ -7,7 +7,7 @@ import verde as vd
 import xarray as xr
 from hypothesis import strategies as st
 
-from vlib import gen
+from vlib import defaults, gen
 from vlib import build as vbuild
 from vlib.build import quiet
 from vlib.runner import Sub, Violation
@@ -199,7 +199,7 @@ def check_grid(case, ctx):
         exp_e, exp_n = vd.grid_coordinates(region, meshgrid=False, **kw)
     with warnings.catch_warnings():
         warnings.simplefilter("ignore")
-        ds = gridder.grid(**call)
+        ds = gridder.grid(**defaults.method_kwargs("grid", call))
     ctx.check(isinstance(ds, xr.Dataset), "grid must return a Dataset")
     ctx.check(set(ds.data_vars) == set(names), "data variables %r, expected %r", list(ds.data_vars), list(names))
     ctx.check(np.array_equal(ds.coords[dims[1]].values, exp_e), "easting coordinate is not that of grid_coordinates for the same arguments: %r vs %r", ds.coords[dims[1]].values[:4], exp_e[:4])
@@ -275,7 +275,7 @@ def check_profile(case, ctx):
     if extra:
         call["extra_coords"] = vbuild.seq(extra if len(extra) > 1 else extra[0], case.get("extra_seq", "list"))
     size = case["size"]
-    table = g.profile(tuple(case["p1"]), tuple(case["p2"]), size, **call)
+    table = g.profile(tuple(case["p1"]), tuple(case["p2"]), size, **defaults.method_kwargs("profile", call))
     ctx.check(isinstance(table, pd.DataFrame) and len(table) == size, "profile must return a DataFrame with 'size' rows")
     exp_cols = [dims[0], dims[1], "distance"] + ["extra_coord" if k == 0 else "extra_coord_%d" % k for k in range(len(extra))] + list(names)
     ctx.check(list(table.columns) == exp_cols, "profile columns %r, expected %r", list(table.columns), exp_cols)
@@ -311,7 +311,7 @@ def check_profile(case, ctx):
 # ---------------------------------------------------------------- scatter
 @st.composite
 def scatter_cases(draw):
-    return dict(region=draw(gen.regions(max_exp=4)), size=draw(st.integers(1, 60)), seed=draw(st.integers(0, 2**31 - 1)), extra_seq=draw(st.sampled_from(vbuild.SEQS)), ncomp=draw(st.integers(1, 3)),
+    return dict(region=draw(gen.regions(max_exp=4)), size=draw(st.one_of(st.integers(1, 60), st.sampled_from([300, 1, 2]))), seed=draw(st.one_of(st.integers(0, 2**31 - 1), st.sampled_from([0, 0, 1]))), extra_seq=draw(st.sampled_from(vbuild.SEQS)), ncomp=draw(st.integers(1, 3)),
                 projection=draw(proj_desc), gridder=draw(st.sampled_from(["analytic", "analytic_region", "checker"])), custom_dims=draw(st.booleans()),
                 n_extra=draw(st.integers(0, 1)))
 
@@ -336,10 +336,13 @@ def check_scatter(case, ctx):
         call["projection"] = proj
     if case["n_extra"]:
         call["extra_coords"] = vbuild.seq(5.5, case.get("extra_seq", "list"))
-    a = quiet(g.scatter, **call)
-    b = quiet(g.scatter, **call)
+    a = quiet(g.scatter, **defaults.method_kwargs("scatter", call))
+    b = quiet(g.scatter, **defaults.method_kwargs("scatter", call))
     ctx.check(isinstance(a, pd.DataFrame) and len(a) == case["size"], "scatter must return a DataFrame with 'size' rows")
     ctx.check(a.equals(b), "scatter is not reproducible for random_state=%r", case["seed"])
+    names = [("scalars",), ("east_component", "north_component"), ("east_component", "north_component", "vertical_component")][ncomp - 1]
+    exp_cols = [dims[0], dims[1]] + (["extra_coord"] if case["n_extra"] else []) + list(names)
+    ctx.check(list(a.columns) == exp_cols, "scatter columns %r, expected %r (northing, easting, extra coordinates, data)", list(a.columns), exp_cols)
     kw = dict(extra_coords=5.5) if case["n_extra"] else {}
     exp = vd.scatter_points(tuple(region), case["size"], random_state=case["seed"], **kw)
     ctx.check(np.array_equal(a[dims[1]].values, exp[0]) and np.array_equal(a[dims[0]].values, exp[1]), "scatter coordinates are not scatter_points(region, size, random_state)")
@@ -349,6 +352,7 @@ def check_scatter(case, ctx):
         expv = field(c, pe, pn) if case["gridder"] != "checker" else np.asarray(g.predict((pe, pn)))
         ctx.check(np.all(np.abs(a[name].values - expv) <= 1e-12 * np.maximum(np.abs(expv), 1.0)), "scatter column %s is not the prediction at the (projected) scatter points", name)
     if case["n_extra"]:
+        ctx.check("extra_coord" in a.columns, "scatter with one extra coordinate has no 'extra_coord' column (the documented default name): columns %r", list(a.columns))
         ctx.check(np.all(a["extra_coord"].values == 5.5), "extra coordinate column wrong")
     ctx.label(case["gridder"], "proj_" + (case["projection"]["kind"] if proj is not None else "none"))
     ctx.nt(case["size"] >= 3 and (proj is not None or ncomp >= 2 or True))
